@@ -177,3 +177,76 @@ Proof.
   - intros w [<-|Hw]; simpl; [constructor|apply H5; exact Hw].
   - intros a b c E. exfalso. eapply Hsp. exact E.
 Qed.
+
+Lemma inv_upd : forall s f id, Inv s -> keeps f ->
+  (forall w, w_dead (f w) = w_dead w /\ w_hist (f w) = w_hist w) ->
+  (forall w, In w (ints s) -> w_id w = id -> w_hist w = w_deliv (f w) ++ frame_list (f w) ++ w_queue (f w)) ->
+  Inv (with_ints s (upd_rec id f (ints s))).
+Proof.
+  intros s f id [H1 H2 H3 H4 H5 H6] Hk Hd Hr. constructor; simpl.
+  - rewrite map_id_upd_rec; assumption.
+  - intros a b Ha Hb Da Db E.
+    destruct (in_upd_rec _ _ _ _ Ha) as [a0 [Ha0 Ca]]. destruct (in_upd_rec _ _ _ _ Hb) as [b0 [Hb0 Cb]].
+    assert (Ea : w_id a = w_id a0 /\ w_pid a = w_pid a0 /\ w_dead a = w_dead a0).
+    { destruct Ca as [[_ ->]|[_ ->]]; [|auto]. destruct (Hk a0) as [? [? ?]]. destruct (Hd a0). auto. }
+    assert (Eb : w_id b = w_id b0 /\ w_pid b = w_pid b0 /\ w_dead b = w_dead b0).
+    { destruct Cb as [[_ ->]|[_ ->]]; [|auto]. destruct (Hk b0) as [? [? ?]]. destruct (Hd b0). auto. }
+    destruct Ea as [-> [Ea2 Ea3]]. destruct Eb as [-> [Eb2 Eb3]]. apply H2; auto; congruence.
+  - intros w Hw. destruct (in_upd_rec _ _ _ _ Hw) as [w0 [Hw0 [[_ ->]|[_ ->]]]]; [|apply H3; exact Hw0].
+    destruct (Hk w0) as [_ [_ ->]]. destruct (Hd w0) as [-> _]. apply H3; exact Hw0.
+  - intros w Hw. destruct (in_upd_rec _ _ _ _ Hw) as [w0 [Hw0 [[Ei ->]|[_ ->]]]]; [|apply H4; exact Hw0].
+    destruct (Hd w0) as [_ ->]. apply Hr; assumption.
+  - intros w Hw. destruct (in_upd_rec _ _ _ _ Hw) as [w0 [Hw0 [[_ ->]|[_ ->]]]]; [|apply H5; exact Hw0].
+    destruct (Hd w0) as [-> ->]. apply H5; exact Hw0.
+  - intros t i p E. destruct (H6 t i p E) as [A [B [C D]]]. repeat split; auto.
+    + rewrite find_upd_rec by assumption. rewrite B. destruct (i =? id); reflexivity.
+    + apply find_pid_upd_none; [|exact C]. intro w. destruct (Hk w) as [_ [_ ->]]. destruct (Hd w) as [-> _]. split; reflexivity.
+Qed.
+
+Lemma forall_app1 : forall (P : Z -> Prop) l x, Forall P l -> P x -> Forall P (l ++ [x]).
+Proof. intros. apply Forall_app. split; [assumption|constructor; [assumption|constructor]]. Qed.
+
+Lemma inv_reap_found : forall s p pid st, Inv s -> spawning s = None -> find_pid pid (ints s) = Some p ->
+  Inv {| ints := upd_rec (w_id p) (set_reap st) (ints s); wlock := wlock s;
+         reaped := (if is_dead st then pid :: reaped s else reaped s); spawning := spawning s |}.
+Proof.
+  intros s p pid st [H1 H2 H3 H4 H5 H6] Hsp Hf. destruct (find_pid_some _ _ _ Hf) as [Hp [Hpid Hlive]].
+  assert (Huniq : forall w, In w (ints s) -> w_id w = w_id p -> w = p).
+  { intros w Hw E. pose proof (find_unique _ _ _ H1 Hw E) as F1. pose proof (find_unique _ _ _ H1 Hp eq_refl) as F2. congruence. }
+  constructor; simpl.
+  - rewrite map_id_upd_rec; auto.
+  - intros a b Ha Hb Da Db E.
+    destruct (in_upd_rec _ _ _ _ Ha) as [a0 [Ha0 Ca]]. destruct (in_upd_rec _ _ _ _ Hb) as [b0 [Hb0 Cb]].
+    assert (Ea : w_id a = w_id a0 /\ w_pid a = w_pid a0 /\ w_dead a0 = false).
+    { destruct Ca as [[_ ->]|[_ ->]]; simpl in *; [|auto]. apply orb_false_iff in Da. destruct Da. auto. }
+    assert (Eb : w_id b = w_id b0 /\ w_pid b = w_pid b0 /\ w_dead b0 = false).
+    { destruct Cb as [[_ ->]|[_ ->]]; simpl in *; [|auto]. apply orb_false_iff in Db. destruct Db. auto. }
+    destruct Ea as [-> [Ea2 Ea3]]. destruct Eb as [-> [Eb2 Eb3]]. apply H2; auto; congruence.
+  - intros w Hw. destruct (in_upd_rec _ _ _ _ Hw) as [w0 [Hw0 [[Ei ->]|[Ei ->]]]]; cbn [w_dead w_pid set_reap].
+    + rewrite (Huniq w0 Hw0 Ei), Hlive, Hpid. cbn [orb]. destruct (is_dead st).
+      * rewrite mem_cons, Z.eqb_refl. reflexivity.
+      * rewrite <- Hpid, <- Hlive. apply H3. exact Hp.
+    + rewrite (H3 w0 Hw0). destruct (is_dead st); [|reflexivity]. rewrite mem_cons.
+      destruct (w_pid w0 =? pid) eqn:E; [|reflexivity]. cbn [orb]. zb.
+      destruct (mem (w_pid w0) (reaped s)) eqn:Em; [reflexivity|]. exfalso. apply Ei. apply H2; auto.
+      * rewrite (H3 w0 Hw0). exact Em.
+      * congruence.
+  - intros w Hw. destruct (in_upd_rec _ _ _ _ Hw) as [w0 [Hw0 [[Ei ->]|[Ei ->]]]]; [|apply H4; exact Hw0].
+    simpl. rewrite (H4 w0 Hw0). unfold frame_list. simpl. rewrite !app_assoc. reflexivity.
+  - intros w Hw. destruct (in_upd_rec _ _ _ _ Hw) as [w0 [Hw0 [[Ei ->]|[Ei ->]]]]; [|apply H5; exact Hw0].
+    simpl. rewrite (Huniq w0 Hw0 Ei), Hlive. simpl. pose proof (H5 p Hp) as Hh. rewrite Hlive in Hh. simpl in Hh.
+    unfold ok_hist. destruct (is_dead st) eqn:Ed.
+    + exists (w_hist p), st. repeat split; auto.
+    + apply forall_app1; assumption.
+  - intros t i q E. rewrite Hsp in E. discriminate.
+Qed.
+
+Lemma inv_reap_stranger : forall s pid, Inv s -> spawning s = None -> find_pid pid (ints s) = None ->
+  Inv {| ints := ints s; wlock := wlock s; reaped := pid :: reaped s; spawning := spawning s |}.
+Proof.
+  intros s pid [H1 H2 H3 H4 H5 H6] Hsp Hf. constructor; cbn [ints wlock reaped spawning]; auto.
+  - intros w Hw. rewrite (H3 w Hw), mem_cons. destruct (w_pid w =? pid) eqn:E; [|reflexivity]. cbn [orb]. zb.
+    destruct (mem (w_pid w) (reaped s)) eqn:Em; [reflexivity|]. exfalso.
+    apply (find_pid_none _ _ _ Hf Hw); [rewrite (H3 w Hw); exact Em|exact E].
+  - intros t i q E. rewrite Hsp in E. discriminate.
+Qed.
